@@ -77,6 +77,8 @@ func main() {
 		res = runInject(a)
 	case "loop":
 		res = runLoop(a)
+	case "chain":
+		res = runChainEngine(a)
 	default:
 		fmt.Fprintln(os.Stderr, "unknown engine", a.engine)
 		os.Exit(2)
